@@ -32,12 +32,12 @@ CLAIMS = {
     'C12': dict(kernel='ordered de-duplicating insert of MutableNodeRefList (binary/linear search, dispatch), DOMServices indexed order',
                 text='Component-level proof: the insertion point splits a strictly ordered list at the key for lists of any length (<= 1e8) and all index values; sortedness/duplicate-freedom preserved by insert.',
                 design_ref='DESIGN.md 4 C12', note=_NOTE, technique='CBMC function+loop contracts with ghost-witness instantiation (unbounded)'),
-    'C13': dict(kernel='whitespace-stripping decision (first matching tester decides)',
-                text='Component-level proof of the strip/preserve DECISION only: declarations stay ordered by priority with the later one first among equals, and the first matching declaration decides. That every observation path consults the decision is not proved.', design_ref='DESIGN.md 4 C13', note=_NOTE,
-                technique='CBMC function+loop contracts'),
-    'C16': dict(kernel='NodeSorter::NodeSortKeyCompare::compare and the number-key cache',
-                text='Component-level proof that the comparator handed to std::stable_sort is the lexicographic key order of XSLT 10 and a strict weak order.',
-                design_ref='DESIGN.md 4 C16', note=_NOTE, technique='CBMC recursive function contract + relational harnesses'),
+    'C13': dict(kernel='whitespace-stripping decision, its cached flag, and the observation paths that consult it: node tests text()/node(), the DOMServices string-value family (24 functions, both sinks), copying to the result tree',
+                text='Component-level proof: declarations stay ordered by priority with the later one first among equals and the first matching declaration decides; the cached flag is computed after the import merge; text()/node() never match a stripped text node; in the string-value family every text node is strip-checked before its data is emitted and no container is handed to the context-free walk while declarations exist; source subtrees copied to the result consult the declarations, result tree fragments never do. That the tree walks enumerate every node exactly once, keys, xsl:number and the source-tree builders are not covered.',
+                design_ref='DESIGN.md 4 C13', note=_NOTE, technique='CBMC function+loop contracts on extracted functions; mutual recursion cut by interface contracts with ghost call log'),
+    'C16': dict(kernel='NodeSorter::NodeSortKeyCompare::compare and ElemForEach::sortChildren (sort-key construction)',
+                text='Component-level proof that the comparator handed to std::stable_sort is the lexicographic key order of XSLT 10 and a strict weak order (<= 4 keys), and that every sort key is built from the attributes of its own xsl:sort element (order, data-type, case-order, lang) and still has them when the sort runs (any number of keys). std::stable_sort, the key-value caches and the ICU collator are not covered.',
+                design_ref='DESIGN.md 4 C16', note=_NOTE, technique='CBMC recursive function contract + relational harnesses; loop contract with ghost witness for the key list'),
     'C17': dict(kernel='ElemNumber::int2alphaCount, toRoman, Counter::getPreviouslyCounted',
                 text='Component-level proof of the alphabetic/roman formatting kernels (buffer safety for all 64-bit values; value round-trip) and the counter lookup.',
                 design_ref='DESIGN.md 4 C17', note=_NOTE, technique='CBMC contracts; width-bounded unwinding with unwinding assertions'),
